@@ -137,8 +137,11 @@ theorem compression_only_at_rotation_or_final_stop (cfg : Cfg) (o : Orc) (hr : c
     terminate cfg o false = (do let w ← getW; whenM w.cur.isSome closeFile) := by
   funext w
   simp only [terminate, rotatePrep, whenM, hr, bind_apply, getW_apply, Bool.false_eq_true, ↓reduceIte,
-    Bool.not_true, Bool.or_self, pure_apply]
-  split <;> simp_all
+    Bool.not_true, Bool.or_self, pure_apply, Gen.termCloseTest, Gen.termPrepTest, Gen.termFinishTest,
+    Gen.termRecreateTest]
+  split
+  · rename_i h; exact h.symm
+  · rename_i h; exact h.symm
 
 /-! ### format table (`_make_compression_function`) -/
 
